@@ -181,6 +181,8 @@ def builtin_scheme(name):
         vals = {"k.1": 1.1, "k.2": 0.07, "sh.a": 2.0, "sh.l1": 1240.0, "sh.l2": 1340.0, "sh.w": 90.0, "sh.b": 0.2}
         data = {"d1": B.noisy_dataset(tt, g)}
     options = {l: {"vary": False} for l in vals if l.startswith(("j.", "irf.s", "irf.dc"))}
+    if name == "general_decay_no_irf_penalty":
+        options["k.3"] = {"expression": "$k.2 * 4"}  # an expression parameter: evaluated by the Parameters object's interpreter
     return B.make_scheme(md, vals, data, options=options)
 
 
